@@ -191,6 +191,10 @@ class TBRMMDesignParameters:
     if isinstance(bound, int) and (value == float('inf') or
                                    int(value) != value):
       raise ValueError('{} must be an integer'.format(attr))
+    if isinstance(bound, int):
+      # Integer-valued floats (e.g. 14.0) are stored as int, so that the value
+      # can be used as a size or an index.
+      setattr(self, attr, int(value))
 
   def _test_value_within_bounds(self, lower, op1, attr, op2, upper):
     """Test that the value of the attribute is within the given bounds.
@@ -271,6 +275,9 @@ class TBRMMDesignParameters:
               (int(lower_range) != lower_range or
                int(upper_range) != upper_range)):
           raise ValueError('{} must be integers'.format(attr))
+        elif isinstance(lower, int):
+          # Integer-valued floats are stored as int (see above).
+          setattr(self, attr, (int(lower_range), int(upper_range)))
       else:
         inv_op1 = self. _inverse_op[op1]
         if upper is float('inf'):
